@@ -1970,6 +1970,18 @@ def _np_sqrt(interp, args, kwargs):
     return interp.native(np.sqrt, args, kwargs)
 
 
+@model(np.isfinite)
+def _np_isfinite(interp, args, kwargs):
+    v = interp.resolve(args[0])
+    if isinstance(v, (SReal, SInt)):
+        # A-FP: symbolic floats are mathematical reals, hence finite (NaN / inf are outside the model; bounded drivers
+        # cover them where a property depends on them)
+        return True
+    if all_concrete(args):
+        return interp.native(np.isfinite, args, kwargs)
+    raise OutsideSubset("np.isfinite of a symbolic array")
+
+
 @model(np.sum)
 def _np_sum(interp, args, kwargs):
     v = interp.resolve(args[0])
